@@ -41,6 +41,15 @@ def mkEnv (t : Tables) (popFirst : Bool) : Env :=
     lower := asciiLower,
     popFirst := popFirst }
 
+/-- a Go nil slice travels as `null` -/
+def getArrD (j : Json) (k : String) : Except String (Array Json) :=
+  match J.optObj j k with
+  | none => pure #[]
+  | some v => v.getArr?
+
+def getHexListD (j : Json) (k : String) : Except String (List Str) := do
+  (← getArrD j k).toList.mapM J.asHex
+
 def optInt (j : Json) (k : String) : Except String (Option Int) :=
   match J.optObj j k with
   | none => pure none
@@ -96,10 +105,10 @@ def decodeClientConfig (j : Json) : Except String ClientConfig := do
 
 def decodeSecureServing (j : Json) : Except String SecureServing := do
   pure { keyData := ← J.getHex j "keyData", certData := ← J.getHex j "certData",
-         clientCAData := ← J.getHex j "clientCAData", serverNames := ← J.getHexList j "serverNames" }
+         clientCAData := ← J.getHex j "clientCAData", serverNames := ← getHexListD j "serverNames" }
 
 def decodePolicy (j : Json) : Except String Policy := do
-  pure { strategy := ← J.getHex j "strategy", upstreamSubset := ← J.getHexList j "upstreamSubset",
+  pure { strategy := ← J.getHex j "strategy", upstreamSubset := ← getHexListD j "upstreamSubset",
          nRules := ← J.getNat j "nRules", flowControlSchemaName := ← J.getHex j "flowControlSchemaName",
          logMode := ← J.getHex j "logMode" }
 
@@ -114,30 +123,30 @@ def decodeCluster (j : Json) : Except String Cluster := do
     | none => pure none
     | some v => do pure (some (← (← v.getArr?).toList.mapM decodeKV))
   pure { name := ← J.getHex j "name",
-         metaErrs := ← (← J.getArr j "metaErrs").toList.mapM decodeFieldErr,
+         metaErrs := ← (← getArrD j "metaErrs").toList.mapM decodeFieldErr,
          annotations := ann,
-         servers := ← (← J.getArr j "servers").toList.mapM decodeServer,
+         servers := ← (← getArrD j "servers").toList.mapM decodeServer,
          clientConfig := ← decodeClientConfig (← J.getObj j "clientConfig"),
          secureServing := ← decodeSecureServing (← J.getObj j "secureServing"),
-         schemas := ← (← J.getArr j "schemas").toList.mapM decodeSchema,
+         schemas := ← (← getArrD j "schemas").toList.mapM decodeSchema,
          loggingMode := ← J.getHex j "loggingMode",
-         policies := ← (← J.getArr j "policies").toList.mapM decodePolicy }
+         policies := ← (← getArrD j "policies").toList.mapM decodePolicy }
 
 def decodeKnown (j : Json) : Except String Known := do
-  pure { name := ← J.getHex j "name", serverNames := ← J.getHexList j "serverNames" }
+  pure { name := ← J.getHex j "name", serverNames := ← getHexListD j "serverNames" }
 
 def decodeTables (j : Json) : Except String Tables := do
-  let urls ← (← J.getArr j "urls").toList.mapM fun e => do
+  let urls ← (← getArrD j "urls").toList.mapM fun e => do
     let ok ← J.getBool e "ok"
     let sc ← J.getHex e "scheme"
     let ho ← J.getHex e "host"
     let u : Option URL := if ok then some ⟨sc, ho⟩ else none
     pure (← J.getHex e "s", u, ← J.getBool e "restOK")
-  let pairs ← (← J.getArr j "pairs").toList.mapM fun e => do
+  let pairs ← (← getArrD j "pairs").toList.mapM fun e => do
     pure (← J.getHex e "cert", ← J.getHex e "key", ← J.getBool e "ok")
-  let pems ← (← J.getArr j "pems").toList.mapM fun e => do
+  let pems ← (← getArrD j "pems").toList.mapM fun e => do
     pure (← J.getHex e "data", ← J.getBool e "ok")
-  let gates ← (← J.getArr j "gates").toList.mapM fun e => do
+  let gates ← (← getArrD j "gates").toList.mapM fun e => do
     let ok ← J.getBool e "ok"
     let g ← J.getBool e "global"
     let r : Option Bool := if ok then some g else none
@@ -194,7 +203,7 @@ def doRun (a : Json) : Except String Json := do
   let t ← decodeTables (← J.getObj a "env")
   let env := mkEnv t t.popFirst
   let envAlt := mkEnv t (!t.popFirst)
-  let known ← (← J.getArr a "known").toList.mapM decodeKnown
+  let known ← (← getArrD a "known").toList.mapM decodeKnown
   let c ← decodeCluster (← J.getObj a "cluster")
   let k := classes env c
   let createLocal := createClusterInfo env false c
